@@ -94,9 +94,19 @@ func c04Src(ts []*c04Tpl) string {
 		if t.tmpl {
 			tag = "template"
 		}
-		vf := t.vars[0]
+		// the same loop head in its spelling variants: one variable bare or parenthesised, two variables with any
+		// spacing around the comma and the parentheses, one or more blanks around "in"
+		h := len(t.coll)*7 + len(t.body)*3 + len(t.vars[0]) + len(t.cond)
+		for _, c := range t.coll {
+			h += int(c)
+		}
+		vf := []string{t.vars[0], t.vars[0], "(" + t.vars[0] + ")", "( " + t.vars[0] + " )"}[h%4]
 		if len(t.vars) == 2 {
-			vf = "(" + t.vars[0] + ", " + t.vars[1] + ")"
+			vf = []string{"(%s, %s)", "(%s,%s)", "( %s , %s )", "(%s ,%s)"}[h%4]
+			vf = fmt.Sprintf(vf, t.vars[0], t.vars[1])
+		}
+		if (h/4)%3 == 0 {
+			vf += " "
 		}
 		cond := ""
 		if t.cond != "" {
